@@ -72,8 +72,7 @@ func floor(s *slip.Scope, f slip.Object, args slip.List, depth int) slip.Values 
 
 	switch tn := num.(type) {
 	case slip.Fixnum:
-		q = tn / div.(slip.Fixnum)
-		r = tn - q.(slip.Fixnum)*div.(slip.Fixnum)
+		q, r = divideFixnums(tn, div.(slip.Fixnum))
 		if 0 < div.(slip.Fixnum) {
 			if r.(slip.Fixnum) < 0 {
 				q = q.(slip.Fixnum) - slip.Fixnum(1)
